@@ -90,25 +90,28 @@ def _work(case):
         res = tokcase.eval_case(_FLEX, wd, case['prog'], case['text'], case['flex_opts'], case['inputs'],
                                 fuel=case.get('fuel', 30000), run_scs=case.get('run_scs'),
                                 check_lockstep=case.get('lockstep', True),
-                                compile_scanner=case.get('compile', True), cc_extra=case.get('cc_extra'))
+                                compile_scanner=case.get('compile', True), cc_extra=case.get('cc_extra'),
+                                backend=case.get('backend', 'nr'))
     except Exception as ex:      # a harness failure must never look like a pass
         res = {'problems': [('harness-error', repr(ex))], 'lockstep': [], 'streams': []}
     res['id'] = case['id']
     return res
 
 
-def make_case(cid, seed_rng, gen_kwargs=None, flex_opts=None, extra_options=None, ninputs=6, maxlen=160, prog=None):
+def make_case(cid, seed_rng, gen_kwargs=None, flex_opts=None, extra_options=None, ninputs=6, maxlen=160, prog=None,
+              backend='nr'):
     r = seed_rng
     prog = prog or rulesets.gen_program(r, **(gen_kwargs or {}))
     options = list(extra_options or [])
     if prog.get('caseins'):
         options.append("case-insensitive")
-    text = scanner.make_spec(prog, r.fork("print"), options=options)
+    text = scanner.make_spec(prog, r.fork("print"), options=options, backend=backend)
     inputs = rulesets.gen_inputs(prog, r.fork("inputs"), count=ninputs, maxlen=maxlen)
     opts = list(flex_opts) if flex_opts is not None else []
     if not any(o in ("-7", "-8") for o in opts):
         opts.append("-8" if prog['csize'] == 256 else "-7")
-    return {'id': cid, 'prog': prog, 'text': text, 'flex_opts': opts, 'inputs': inputs,
+    return {'id': cid, 'prog': prog, 'text': text, 'flex_opts': opts, 'inputs': inputs, 'backend': backend,
+            'extra_options': list(extra_options or []),
             'run_scs': list(range(1, 2 + len(prog.get('scs', []))))}
 
 
@@ -128,7 +131,7 @@ def prog_key(case):
 def real_vs_spec(flex, wd, case, inputs, run_scs):
     """Run flex+cc+scanner+validator only; returns list of failing (sc, input) pairs or a build problem."""
     res = tokcase.eval_case(flex, wd, case['prog'], case['text'], case['flex_opts'], inputs,
-                            check_lockstep=False, run_scs=run_scs, cc_extra=case.get('cc_extra'))
+                            check_lockstep=False, run_scs=run_scs, cc_extra=case.get('cc_extra'), backend=case.get('backend', 'nr'))
     fails = []
     for kind, msg in res['problems']:
         if kind in ('token-mismatch', 'yytext-mismatch', 'scanner-abnormal'):
@@ -162,7 +165,7 @@ def search_failing_input(flex, scratch, case, words):
             by_sc[sc].append(w)
     for sc, ws in by_sc.items():
         res = tokcase.eval_case(flex, wd, case['prog'], case['text'], case['flex_opts'], ws,
-                                check_lockstep=False, run_scs=[sc], cc_extra=case.get('cc_extra'))
+                                check_lockstep=False, run_scs=[sc], cc_extra=case.get('cc_extra'), backend=case.get('backend', 'nr'))
         for st in res['streams']:
             if not st['valid'] or not st['text_ok']:
                 return sc, list(bytes.fromhex(st['input']))
@@ -181,7 +184,7 @@ def shrink_input(flex, scratch, case, sc, w):
         if not x:
             return False
         res = tokcase.eval_case(flex, wd, case['prog'], case['text'], case['flex_opts'], [x],
-                                check_lockstep=False, run_scs=[sc], cc_extra=case.get('cc_extra'))
+                                check_lockstep=False, run_scs=[sc], cc_extra=case.get('cc_extra'), backend=case.get('backend', 'nr'))
         return any(k in ('token-mismatch', 'yytext-mismatch', 'scanner-abnormal') for k, _ in res['problems'])
 
     budget = 40
@@ -225,13 +228,13 @@ def shrink_rules(flex, scratch, case, sc, w):
         prog2['rules'] = cur['prog']['rules'][:i] + cur['prog']['rules'][i + 1:]
         options = ["case-insensitive"] if prog2.get('caseins') else []
         options += cur.get('extra_options', [])
-        text2 = scanner.make_spec(prog2, Rng(7).fork("shrink%d" % i), options=options)
+        text2 = scanner.make_spec(prog2, Rng(7).fork("shrink%d" % i), options=options, backend=cur.get('backend', 'nr'))
         c2 = dict(cur)
         c2['prog'] = prog2
         c2['text'] = text2
         budget -= 1
         res = tokcase.eval_case(flex, wd, prog2, text2, cur['flex_opts'], [w], check_lockstep=False, run_scs=[sc],
-                                cc_extra=cur.get('cc_extra'))
+                                cc_extra=cur.get('cc_extra'), backend=cur.get('backend', 'nr'))
         if any(k in ('token-mismatch', 'yytext-mismatch', 'scanner-abnormal') for k, _ in res['problems']):
             cur = c2
         else:
@@ -340,7 +343,7 @@ def report_failing_input(ck, flex, scratch, case, sc, w, note, classify=None):
     # what the scanner did and what the manual says
     wd = os.path.join(scratch.sub("final"), prog_key(c2))
     res = tokcase.eval_case(flex, wd, c2['prog'], c2['text'], c2['flex_opts'], [w3], check_lockstep=False, run_scs=[sc],
-                            cc_extra=c2.get('cc_extra'))
+                            cc_extra=c2.get('cc_extra'), backend=c2.get('backend', 'nr'))
     observed = res['streams'][0]['real'] if res['streams'] else [p for p in res['problems']]
     ck.violation(key, "scanner's tokens differ from the documented tokenisation (sc=%d, input=%s)" % (sc, bytes(w3).hex()),
                  replay_record(c2, {'start_condition': sc, 'input_hex': bytes(w3).hex(), 'observed_tokens': observed,
